@@ -83,4 +83,10 @@ example : wfV (.map [(#[0x61], .seq [.int (-5), .some (.str #[0x62, 0x63]), .non
 theorem C02_write_calls_are_the_source_text (w : Writer) (op : WOp) : writerStepGen w op = w.step op :=
   gen_writerStep_eq w op
 
+/-- the ten exported write entry points hand their arguments to the methods above unchanged — the
+    boolean flag as `!= 0`, the string allocation's (status, pointer) packed into one double-width
+    word, an interned string as allocate + copy of the interned bytes (recognised by the translator on
+    every run; a body it does not recognise is a broken translation obligation) -/
+theorem C02_entry_points_recognised : writerEntryPoints.length = 10 := by decide +kernel
+
 end SfVerif.Props.C02
